@@ -129,12 +129,12 @@ def run(m: Model, r: Report, tier: str) -> None:
     tr.address_filter(r, "R6", ack, {"req_hdr.src_addr != self.src_addr", "req_hdr.dst_addr != self.dst_addr"}, m)
     tr.address_filter(r, "R6", diag, {"req_hdr.src_addr != self.dst_addr", "req_hdr.dst_addr != self.src_addr"}, m)
     def first_if_test(fn, needle):
-        return [m.mtext(fn, n.test).replace(" ", "") for n in walk_no_nested(fn.node) if isinstance(n, ast.If) and needle in ast.unparse(n.test)]
-    r.check(first_if_test(ack, "HSFZStatus") == ["_L.CWord!=HSFZStatus.Ack"], "R6", f"{ack.qualname}#control-word",
+        return [m.mtext(fn, n.test) for n in walk_no_nested(fn.node) if isinstance(n, ast.If) and needle in ast.unparse(n.test)]
+    r.check(first_if_test(ack, "HSFZStatus") == [m.mpat(ack, "hdr.CWord != HSFZStatus.Ack")], "R6", f"{ack.qualname}#control-word",
             f"ack control word test: {first_if_test(ack, 'HSFZStatus')}", loc=ack.loc)
-    r.check(first_if_test(diag, "HSFZStatus") == ["_L.CWord!=HSFZStatus.Data"], "R6", f"{diag.qualname}#control-word",
+    r.check(first_if_test(diag, "HSFZStatus") == [m.mpat(diag, "hdr.CWord != HSFZStatus.Data")], "R6", f"{diag.qualname}#control-word",
             f"data control word test: {first_if_test(diag, 'HSFZStatus')}", loc=diag.loc)
-    r.check(first_if_test(ack, "prev_data") == ["prev_data[:5]!=_L"] or first_if_test(ack, "prev_data") == ["_L!=prev_data[:5]"], "R6",
+    r.check(first_if_test(ack, "prev_data") == [m.mpat(ack, "data != prev_data[:5]")], "R6",
             f"{ack.qualname}#echo", f"ack echo test: {first_if_test(ack, 'prev_data')}; an ack echoes the first five request bytes", loc=ack.loc)
     tr.requeue_before_exit(r, "R7", ack, "self._read_queue")
     tr.requeue_before_exit(r, "R7", diag, "self._read_queue")
